@@ -266,6 +266,11 @@ def _orders(ctx):
             impl.model_outcome(earlier, "file", None, (), "model")
             check_e2e(ctx, [pool[0], line, pool[2]], "line %r parsed in an instrument section of the chart before" % line)
             check_e2e(ctx, [line], "line %r parsed in an instrument section of an earlier chart" % line)
+    # LONG lines: an event text makes its physical line cross 8192 / 65536 characters (readline sizes, buffers)
+    for n in (8100, 8170, 8180, 8192, 8200, 20000, 65530, 65540, 70000):
+        for tmpl in ("lyric %s", "section %s", "%s"):
+            t = tmpl % ("la " * (n // 3))[:n]
+            check_e2e(ctx, [pool[0], '96 = E "%s"' % t, pool[2]], "event text of %d characters" % len(t))
     # text that looks like the start of a remark in other formats is part of the value
     for ct in COMMENT_TRAPS:
         if '"' in ct:
